@@ -12,6 +12,25 @@ CLAIMED = {
              "correspondence; floats as IEEE words (NaN excluded), 7-bit strings, Python flattens Optional[Optional[T]] Some(None).",
         technique="Lean 4 proof (structural induction) + model/implementation correspondence check",
         ref="DESIGN.md section 8, C01"),
+    "C02": dict(
+        text="Lean theorems: pyEncode = encBytes (canonical Wire bytes) and pyDecode agrees with the canonical decoder on every "
+             "byte string; structural facts of the format (field order, LSB-first, two's complement, u32 counts, u8 flag, zero padding) "
+             "and injectivity. The project's 26 cross-language vectors are translated to Lean on every run and kernel-checked against Wire "
+             "(decide +kernel). Tie: per-run differential of fcp.serde against Wire/PyCodec in both directions.",
+        note="Trusted: Lean kernel + standard axioms; vector translator (harness/translators.py); sampled correspondence; "
+             "the C++ side of 'canonical' is C03's business.",
+        technique="Lean 4 proof (refinement to a canonical codec) + translated test vectors + correspondence check",
+        ref="DESIGN.md section 8, C02"),
+    "C16": dict(
+        text="Lean theorems: every strict byte prefix of a valid encoding makes pyDecode return an error (C16_truncation, from "
+             "dec_prefix_none by induction over the type tree), a returned value accounts for bits that were present "
+             "(C16_no_fabrication from dec_consumes), and pyDecode errs whenever the canonical decoder fails (short payloads). "
+             "Tie: every truncation point and corrupted length prefixes up to 2^32-1 against the model, with read_word/_decode call "
+             "counting against an input-length bound.",
+        note="Partial: the work bound is checked by call counting in the harness, not yet by a Lean theorem; zero-width element types "
+             "under a dynamic array are a recorded finding (known_findings.json).",
+        technique="Lean 4 proof (prefix lemma by structural induction) + correspondence check with call counting",
+        ref="DESIGN.md section 8, C16"),
 }
 ALL = [f"C{n:02d}" for n in range(1, 21)]
 
